@@ -1,6 +1,7 @@
 import LJT.Model.DecompCtl
 import LJT.Proofs.SkipSM
 import LJT.Proofs.MergedSM
+import LJT.Proofs.MergedSM1
 /-!
 # C08 - Partial decompression equals the same region of a full decode
 
@@ -242,6 +243,14 @@ theorem merged_rows_are_where_they_belong_partial (c : Cfg) (hM : 0 < c.M) (hv :
     ∀ ip ∈ (mrun c (minit c) calls).2, ip.2.2.1 < c.M ∧ ip.2.2.2 < c.v ∧ Prov.line c ip.2 = ip.1 ∧ ip.1 < c.H := by
   intro ip hip
   obtain ⟨h1, h2, h3, _, h5⟩ := (mrun_spec c hv hM calls (minit c) (minit_inv c hM) hfree).2 ip hip
+  exact ⟨h1, h2, h3, h5⟩
+
+open LJT.Skip in
+/-- **Merged upsampling without vertical subsampling (4:2:2): every history delivers the right rows.** -/
+theorem merged_1v_rows_are_where_they_belong (c : Cfg) (hM : 0 < c.M) (hv : c.v = 1) (calls : List Call) :
+    ∀ ip ∈ (mrun c (minit c) calls).2, ip.2.2.1 < c.M ∧ ip.2.2.2 < c.v ∧ Prov.line c ip.2 = ip.1 ∧ ip.1 < c.H := by
+  intro ip hip
+  obtain ⟨h1, h2, h3, _, h5⟩ := (mrun1_spec c hv hM calls (minit c) (minit_inv1 c hM)).2 ip hip
   exact ⟨h1, h2, h3, h5⟩
 
 open LJT.Skip in
